@@ -102,6 +102,24 @@ class CallGraph:
                         m = at[1].find_method(f"__{n.func.id}__")
                         if m is not None:
                             self._add(f, n, "dunder", [Callee(func=m, recv=at)])
+                # logging formats its arguments (lazily, but in this thread, before the call returns): `logger.debug("%r", obj)`
+                # runs obj.__repr__ / __str__; so does a formatted value in an f-string argument
+                if isinstance(n.func, ast.Attribute) and n.func.attr in ("debug", "info", "warning", "error", "exception", "critical", "log") \
+                        and isinstance(n.func.value, ast.Name) and "log" in n.func.value.id.lower():
+                    for a in n.args[1:]:
+                        at = ty.expr_type(a, f)
+                        if at[0] == "cls":
+                            for dn in ("__repr__", "__str__"):
+                                m = at[1].find_method(dn)
+                                if m is not None:
+                                    self._add(f, a, "dunder", [Callee(func=m, recv=at)])
+            elif isinstance(n, ast.FormattedValue):
+                at = ty.expr_type(n.value, f)
+                if at[0] == "cls":
+                    for dn in ("__repr__", "__str__"):
+                        m = at[1].find_method(dn)
+                        if m is not None:
+                            self._add(f, n, "dunder", [Callee(func=m, recv=at)])
             elif isinstance(n, (ast.With, ast.AsyncWith)):
                 names = ("__aenter__", "__aexit__") if isinstance(n, ast.AsyncWith) else ("__enter__", "__exit__")
                 for item in n.items:
